@@ -475,7 +475,8 @@ def sp_lm_of(ex, e, st):
     v = z3.Int("v#lm")
     dg = row_deg(acc, v)
     vals = z3.And(d.vlen[v] == dg, *[z3.Implies(i < dg, d.varr[v][i] == acc.arr2[v][row_arc(acc, NONE, v, iv(i))]) for i in range(4)])
-    keys = z3.ForAll([v], z3.And(d.has[v] == z3.And(0 <= v, v < bnd, dg > 0), z3.Implies(d.has[v], vals)), patterns=[d.has[v]])
+    from pyvc.sym import qforall
+    keys = qforall([v], z3.And(d.has[v] == z3.And(0 <= v, v < bnd, dg > 0), z3.Implies(d.has[v], vals)), [d.has[v]])
     return keys
 
 
@@ -794,3 +795,57 @@ SPEC = {
     "same": sp_same_seq, "upd": sp_upd, "accepts": sp_accepts, "haskey": sp_haskey, "order": sp_order, "sorted_positions": sp_sorted_positions, "lm_of": sp_lm_of, "comp": sp_comp, "chr_": sp_chr, "gc_window_ok": sp_gc_window_ok, "occurs": sp_occurs, "rc_code": sp_rc_code, "filter_ok": sp_filter_ok, "succ": sp_succ, "shuffled_row": sp_shuffled_row, "rng_is": sp_rng_is, "row_is": sp_row_is, "rdeg": sp_rdeg, "rarc": sp_rarc, "rdigit": sp_rdigit, "is_perm_row": sp_is_perm_row, "row": sp_row, "rwalkv": sp_rwalkv, "A2": sp_A2, "vt_matches": sp_vt_matches, "rwt": sp_rwt, "rlv": sp_rlv, "rhv": sp_rhv, "here": sp_here, "deg": sp_deg, "arc_of_digit": sp_arc_of_digit, "digit_of_arc": sp_digit_of_arc, "is_accessor": sp_is_accessor,
     "is_table": sp_is_table, "first": sp_first, "second": sp_second, "dec_step": sp_dec_step, "walkv": sp_walkv, "enc_step": sp_enc_step, "fast_step": sp_fast_step, "fast_cells": sp_fast_cells, "floc": sp_floc, "link": sp_link, "wt": sp_wt, "lv": sp_lv, "hv": sp_hv, "ascents": sp_ascents, "nsucc": sp_nsucc, "rsum": sp_rsum, "code": sp_code, "dnav": sp_dnav, "codes": sp_codes, "is_dna": sp_is_dna, "pv": sp_pv, "store": sp_store, "A": sp_A, "D": sp_D, "P": sp_P, "seq_is": sp_seq_is, "seq_is_cons": sp_seq_is_cons, "ite": sp_ite, "isnone": sp_isnone, "cnt": sp_cnt, "ssum": sp_ssum,
 }
+
+
+def sp_candidates_ok(ex, e, st):
+    """candidates_ok(lst, name): every element of lst satisfies the element invariant the contract declares for the collection `name`.  For a value derived
+    from that collection the invariant holds by construction (each add carried it as an obligation); for a literal list it is evaluated per element."""
+    from pyvc.calls import Coll, coll_invariant
+    from pyvc.engine import Unsupported
+    v = ex.ev(e.args[0], st)
+    name = e.args[1].value
+    if isinstance(v, Coll):
+        if v.name != name:
+            raise Unsupported("candidates_ok on a different collection")
+        return z3.BoolVal(True)
+    if isinstance(v, Tup):
+        return z3.And(*[coll_invariant(ex, st, name, x) for x in v.items]) if v.items else z3.BoolVal(True)
+    if isinstance(v, Seq) and lit(v.n) == 0:
+        return z3.BoolVal(True)           # the empty list literal
+    raise Unsupported("candidates_ok of this value (sidecar no longer binds)")
+
+
+def sp_sorted_unique(ex, e, st):
+    """sorted_unique(lst): strictly increasing.  True for sorted(list(set)) by the library contract and for literal lists of at most one element."""
+    from pyvc.calls import Coll
+    from pyvc.engine import Unsupported
+    v = ex.ev(e.args[0], st)
+    if isinstance(v, Coll):
+        return z3.BoolVal(v.form == "sorted")
+    if isinstance(v, Tup) and len(v.items) <= 1:
+        return z3.BoolVal(True)
+    if isinstance(v, Seq) and lit(v.n) == 0:
+        return z3.BoolVal(True)           # the empty list literal
+    raise Unsupported("sorted_unique of this value (sidecar no longer binds)")
+
+
+SPEC["candidates_ok"] = sp_candidates_ok
+SPEC["sorted_unique"] = sp_sorted_unique
+
+
+ISCORE = z3.Function("iscore", z3.ArraySort(z3.IntSort(), z3.BoolSort()), z3.ArraySort(z3.IntSort(), z3.ArraySort(z3.IntSort(), z3.IntSort())),
+                     z3.ArraySort(z3.IntSort(), z3.IntSort()), z3.IntSort(), z3.BoolSort(), z3.BoolSort(), z3.IntSort(), z3.IntSort(), z3.IntSort())
+
+
+def sp_iscore(ex, e, st):
+    """iscore(latter_map, k, has_insertion, has_deletion, v, j): THE intersection score of the arc in column j of vertex v - an uninterpreted function of the
+    graph (keys, successor lists), the order and the two error-model flags.  What the score IS is the callee's business (assumed contract, bounded tier);
+    naming it lets a caller's contract say 'the maximum score of THIS graph under THESE flags'."""
+    from pyvc.engine import tobool
+    d = _dict(ex.ev(e.args[0], st))
+    k = _int(ex.ev(e.args[1], st))
+    ins, dele = tobool(ex.ev(e.args[2], st)), tobool(ex.ev(e.args[3], st))
+    return ISCORE(d.has, d.varr, d.vlen, k, ins, dele, _int(ex.ev(e.args[4], st)), _int(ex.ev(e.args[5], st)))
+
+
+SPEC["iscore"] = sp_iscore
